@@ -439,6 +439,9 @@ func (p *parser) parseDotMember(left ast.Expression) ast.Expression {
 		return &ast.BadExpression{From: period, To: p.idx}
 	}
 
+	// The IdentifierName may be a reserved word, for which the scanner does not
+	// arm automatic semicolon insertion; as a property name it ends an expression.
+	p.insertSemicolon = true
 	p.next()
 
 	return &ast.DotExpression{
